@@ -54,9 +54,12 @@ Print Assumptions found_prefix_resolves.
 (* ---- the whole-program theorem ---- *)
 
 (* result_ns_wellformed_partial: for EVERY list of the modelled constructors (literal result
-   elements with exclude-result-prefixes, xsl:element, xsl:attribute with or without namespace=,
-   text, end tags; any nesting, any prefixes/URIs, any history), if the run raises no hazard
-   (exact decidable guard guard_ok: K17 duplicate expanded name, KN6 p:e with namespace="",
+   elements with exclude-result-prefixes - also with xsl:use-attribute-sets, whose xsl:attribute
+   instructions run between the declarations and the literal attributes -, xsl:element,
+   xsl:attribute with or without namespace=, text, end tags; any nesting, any prefixes/URIs, any
+   history), if the run raises no hazard
+   (exact decidable guard guard_ok: K17 duplicate expanded name, KN6 p:e with namespace="", KN10
+   a literal attribute whose prefix an attribute set re-bound before the attribute was added,
    xsl:attribute creating an xmlns declaration, and stylesheet-side arguments no stylesheet can
    produce), the namespace-aware reader accepts every start tag the engine has written: the element
    and each attribute resolve - through the declarations written on it and its ancestors - to
